@@ -571,6 +571,7 @@ func main() {
 			mu.Unlock()
 		})
 	}
+	deep(r)
 	scale(r)
 	r.Set("builds_accepted", setsBuilt)
 	r.Set("builds_rejected", setsRejected)
@@ -601,7 +602,7 @@ func reverse(n int) []int {
 func scale(r *report.R) {
 	sizes := []int{1000}
 	if r.Thorough() {
-		sizes = []int{1000, 2000, 4000}
+		sizes = []int{1000, 4000, 12000}
 	}
 	for _, n := range sizes {
 		var patterns []string
@@ -706,4 +707,124 @@ func groupOf(p string) string {
 		return ""
 	}
 	return p[:j+2]
+}
+
+// deep: backtracking far beyond three segments. For every depth D up to the stated maximum the
+// table holds, for each level k < D, the patterns "/a"*k + "/:p" + tail*(D-k-1) with tail in
+// {"/a", "/x"}: a literal chain with a parameter alternative at every level. Looked up: every
+// sequence of D-1, D and D+1 segments over {a, x}. Most paths instantiate several patterns, and some
+// are matched only through the shallowest parameter after the literal walk has gone all the way down.
+func deep(r *report.R) {
+	maxD := 10
+	if r.Thorough() {
+		maxD = 14
+	}
+	for D := 2; D <= maxD; D++ {
+		var pats []string
+		seen := map[string]bool{}
+		for k := 0; k < D; k++ {
+			for _, tail := range []string{"/a", "/x"} {
+				p := strings.Repeat("/a", k) + fmt.Sprintf("/:d%dk%d%s", D, k, tail[1:]) + strings.Repeat(tail, D-k-1)
+				key := strings.Repeat("/a", k) + "/:" + strings.Repeat(tail, D-k-1)
+				if !seen[key] {
+					seen[key] = true
+					pats = append(pats, p)
+				}
+			}
+		}
+		rev := make([]string, len(pats))
+		for i := range pats {
+			rev[len(pats)-1-i] = pats[i]
+		}
+		var paths []string
+		for _, n := range []int{D - 1, D, D + 1} {
+			for _, seq := range enum.Seqs(2, n, n) {
+				p := ""
+				for _, s := range seq {
+					p += []string{"/a", "/x"}[s]
+				}
+				paths = append(paths, p)
+			}
+		}
+		var base []result
+		for oi, ps := range [][]string{pats, rev} {
+			rt, err := build(ps)
+			if err != nil {
+				r.Fail("deep-build-error", fmt.Sprintf("depth %d: %v", D, err), Case{ps, "/", "lookup"})
+				continue
+			}
+			toks := make([][]tok, len(ps))
+			for i, p := range ps {
+				toks[i] = parsePattern(p)
+			}
+			cur := make([]result, len(paths))
+			var nontriv int64
+			for qi, path := range paths {
+				res := lookup(rt, path)
+				cur[qi] = res
+				if res.found {
+					nontriv++
+				}
+				if cl, what := judge(ps, toks, path, res); cl != "" {
+					r.Fail("deep-"+cl, fmt.Sprintf("depth %d, order %d: %s", D, oi, what), Case{ps, path, "lookup"})
+				}
+				if oi == 1 {
+					b := base[qi]
+					if b.found != res.found || !sameBinds(b.params, res.params) || (b.found && pats[b.data] != ps[res.data]) {
+						r.Fail("deep-order-dependent", fmt.Sprintf("depth %d path %q: %s vs %s", D, path, b, res), Case{ps, path, "lookup"})
+					}
+				}
+			}
+			if oi == 0 {
+				base = cur
+			}
+			r.Eval(int64(len(paths)))
+			r.Nontrivial(nontriv)
+		}
+	}
+	// second family: every level has a parameter alternative whose pattern ends in its own literal,
+	// "/a"*k + "/:p" + "/a"*(D-k-2) + "/e<k>": the path "/a"*(D-1) + "/e<j>" follows the literal chain to
+	// the bottom and is matched only through the parameter at level j (also the shallowest one).
+	for D := 3; D <= maxD+2; D++ {
+		var pats []string
+		for k := 0; k <= D-2; k++ {
+			pats = append(pats, strings.Repeat("/a", k)+fmt.Sprintf("/:t%dk%d", D, k)+strings.Repeat("/a", D-k-2)+fmt.Sprintf("/e%d", k))
+		}
+		rev := make([]string, len(pats))
+		for i := range pats {
+			rev[len(pats)-1-i] = pats[i]
+		}
+		var paths []string
+		for j := 0; j <= D-2; j++ {
+			paths = append(paths, strings.Repeat("/a", D-1)+fmt.Sprintf("/e%d", j))
+			for i := 0; i < D-1; i++ {
+				paths = append(paths, strings.Repeat("/a", i)+"/x"+strings.Repeat("/a", D-2-i)+fmt.Sprintf("/e%d", j))
+			}
+			paths = append(paths, strings.Repeat("/a", D-2)+fmt.Sprintf("/e%d", j), strings.Repeat("/a", D)+fmt.Sprintf("/e%d", j))
+		}
+		for oi, ps := range [][]string{pats, rev} {
+			rt, err := build(ps)
+			if err != nil {
+				r.Fail("deep-build-error", fmt.Sprintf("depth %d: %v", D, err), Case{ps, "/", "lookup"})
+				continue
+			}
+			toks := make([][]tok, len(ps))
+			for i, p := range ps {
+				toks[i] = parsePattern(p)
+			}
+			var nontriv int64
+			for _, path := range paths {
+				res := lookup(rt, path)
+				if res.found {
+					nontriv++
+				}
+				if cl, what := judge(ps, toks, path, res); cl != "" {
+					r.Fail("deep-"+cl, fmt.Sprintf("own-tail family, depth %d, order %d: %s", D, oi, what), Case{ps, path, "lookup"})
+				}
+			}
+			r.Eval(int64(len(paths)))
+			r.Nontrivial(nontriv)
+		}
+	}
+	r.Set("deep_chain_max_depth", maxD)
 }
